@@ -90,4 +90,186 @@ final(self).same_files(old(self)),
 old(self).healthy() ==> r is Ok,
 r is Ok ==> forall|w: MapW| #[trigger] map_ok(old(self).mb(), w) ==> r->Ok_0 == total(w.cs)
 @end
+
+@fn src/filedb/inner/dbxxx.rs | impl<KT: DbMapKeyType> FileDbXxxInner<KT> | find_in_hash_buckets_kt
+@opts rlimit=100
+@serves C01 C15
+@requires
+old(self).inv(), hash.val == key_hash(key_kt.bytes())
+@ensures
+final(self).same_files(old(self)),
+old(self).healthy() ==> r is Ok,
+r is Ok ==> forall|w: MapW| #[trigger] map_ok(old(self).mb(), w) ==> find_post(old(self).mb(), w, key_kt.bytes(),
+    match r->Ok_0 { Some(t) => Some((t.0.val as nat, t.1.val as nat)), None => None })
+@entry
+let ghost m = old(self).mb();
+let ghost key = key_kt.bytes();
+let ghost w0: MapW = choose|w: MapW| #[trigger] map_ok(m, w);
+let ghost b = bucket_of(key, m.n);
+let ghost s0 = w0.cs[b];
+let ghost kf0 = old(self).kf();
+let ghost mut i: int = 0;
+proof {
+    lemma_bucket_range(key, m.n);
+    assert(chain_ok(w0.kw, bucket(m.hb, b), s0, b, m.n));
+    lemma_chain_head(w0.kw, bucket(m.hb, b), s0, b, m.n);
+}
+@loop 1 invariant
+self.key_file.0 == *final(locked_key),
+0 <= i <= s0.len(),
+key_offset.val as nat == (if i < s0.len() { s0[i] } else { 0 }),
+prev_key_offset.val as nat == prev_of(s0, i),
+same_but_pos(kf0, locked_key.0@), okh2(kf0, locked_key.0@), locked_key.0.piece_mgr == m.kpm,
+forall|j: int| 0 <= j < i ==> kkey(w0.kw, #[trigger] s0[j]) != key
+@loop 1 decreases
+s0.len() - i
+@loop 1 body-start
+proof {
+    if i >= s0.len() { assert(false); }
+    lemma_chain_member(w0.kw, bucket(m.hb, b), s0, b, m.n, i);
+    assert(key_at(locked_key.0@.bytes, m.kpm, w0.kw, s0[i]));
+}
+@loop 1 body-end
+proof { i = i + 1; }
+@before-call read_piece_only_bucket_next_offset 1
+proof { assert(key_at(locked_key.0@.bytes, m.kpm, w0.kw, s0[i])); }
+@before-return 1
+proof {
+    let ko = s0[i];
+    assert forall|w: MapW| #[trigger] map_ok(m, w) implies find_post(m, w, key, Some((ko, prev_of(s0, i)))) by {
+        lemma_chain_unique(m, w0, w, b);
+        assert(chain_ok(w.kw, bucket(m.hb, b), w.cs[b], b, m.n));
+        lemma_chain_member(w.kw, bucket(m.hb, b), w.cs[b], b, m.n, i);
+        lemma_key_same(m, w0, w, ko);
+        assert(w.cs[b][i] == ko);
+    }
+}
+@exit
+proof {
+    if r__ is Ok && r__->Ok_0 is None {
+        if i < s0.len() { lemma_chain_member(w0.kw, bucket(m.hb, b), s0, b, m.n, i); }
+        assert(i == s0.len());
+        assert forall|w: MapW| #[trigger] map_ok(m, w) implies find_post(m, w, key, None) by {
+            lemma_chain_unique(m, w0, w, b);
+            assert(chain_ok(w.kw, bucket(m.hb, b), w.cs[b], b, m.n));
+            assert forall|j: int| 0 <= j < w.cs[b].len() implies kkey(w.kw, #[trigger] w.cs[b][j]) != key by {
+                lemma_chain_member(w.kw, bucket(m.hb, b), w.cs[b], b, m.n, j);
+                lemma_chain_member(w0.kw, bucket(m.hb, b), s0, b, m.n, j);
+                lemma_key_same(m, w0, w, s0[j]);
+            }
+            lemma_lookup_absent(m, w, key);
+        }
+    }
+}
+@end
+
+@fn src/filedb/inner/dbxxx.rs | impl<KT: DbMapKeyType> FileDbXxxInner<KT> | load_value
+@opts mutself
+@requires
+piece_offset.val != 0, exists|w: MapW| #[trigger] map_ok(old(self).mb(), w) && is_key(w.kw, piece_offset.val as nat)
+@ensures
+final(self).same_files(old(self)),
+old(self).healthy() ==> r is Ok,
+r is Ok ==> forall|w: MapW| #[trigger] map_ok(old(self).mb(), w) && is_key(w.kw, piece_offset.val as nat) ==> r->Ok_0@ == vval(w.vw, kvoff(w.kw, piece_offset.val as nat))
+@entry
+let ghost m = old(self).mb();
+let ghost ko = piece_offset.val as nat;
+let ghost w0: MapW = choose|w: MapW| #[trigger] map_ok(m, w) && is_key(w.kw, ko);
+proof {
+    assert(key_at(m.kb, m.kpm, w0.kw, ko));
+    lemma_val_link(w0.kw, w0.vw, w0.vown, ko);
+    lemma_val_decodes(m.vb, m.vpm, w0.vw, kvoff(w0.kw, ko));
+}
+@before-call read_piece_only_value 1
+proof { assert(val_at(self.vf().bytes, m.vpm, w0.vw, kvoff(w0.kw, ko))); }
+@exit
+proof {
+    if r__ is Ok {
+        assert forall|w: MapW| #[trigger] map_ok(m, w) && is_key(w.kw, ko) implies r__->Ok_0@ == vval(w.vw, kvoff(w.kw, ko)) by {
+            assert(key_at(m.kb, m.kpm, w.kw, ko));
+            lemma_key_same(m, w0, w, ko);
+            lemma_val_link(w.kw, w.vw, w.vown, ko);
+            assert(val_at(m.vb, m.vpm, w.vw, kvoff(w.kw, ko)));
+        }
+    }
+}
+@end
+
+@fn src/filedb/inner/dbxxx.rs | impl<KT: DbMapKeyType> DbXxxObjectSafe<KT> for FileDbXxxInner<KT> | get_kt
+@opts mapres
+@serves C01 C15
+@requires
+old(self).inv()
+@ensures
+final(self).same_files(old(self)),
+old(self).healthy() ==> r is Ok,
+r is Ok ==> forall|w: MapW| #[trigger] map_ok(old(self).mb(), w) ==> (match r->Ok_0 { Some(v) => Some(v@), None => None }) == lookup(w, key_kt.bytes())
+@entry
+let ghost m = old(self).mb();
+let ghost key = key_kt.bytes();
+let ghost w0: MapW = choose|w: MapW| #[trigger] map_ok(m, w);
+let ghost mut gopt: Option<(nat, nat)> = None;
+@after-call find_in_hash_buckets_kt 1
+proof {
+    gopt = match opt { Some(t) => Some((t.0.val as nat, t.1.val as nat)), None => None };
+    assert(find_post(m, w0, key, gopt));
+    lemma_bucket_range(key, m.n);
+    if opt is Some {
+        let ko = opt->Some_0.0.val as nat;
+        assert(chain_ok(w0.kw, bucket(m.hb, bucket_of(key, m.n)), w0.cs[bucket_of(key, m.n)], bucket_of(key, m.n), m.n));
+        let i = choose|i: int| 0 <= i < w0.cs[bucket_of(key, m.n)].len() && #[trigger] w0.cs[bucket_of(key, m.n)][i] == ko && kkey(w0.kw, ko) == key && opt->Some_0.1.val as nat == prev_of(w0.cs[bucket_of(key, m.n)], i);
+        lemma_chain_member(w0.kw, bucket(m.hb, bucket_of(key, m.n)), w0.cs[bucket_of(key, m.n)], bucket_of(key, m.n), m.n, i);
+        assert(map_ok(self.mb(), w0) && is_key(w0.kw, ko));
+    }
+}
+@exit
+proof {
+    if r__ is Ok {
+        assert forall|w: MapW| #[trigger] map_ok(m, w) implies (match r__->Ok_0 { Some(v) => Some(v@), None => None }) == lookup(w, key) by {
+            assert(find_post(m, w, key, gopt));
+            if gopt is Some {
+                let ko = gopt->Some_0.0;
+                let s = w.cs[bucket_of(key, m.n)];
+                assert(chain_ok(w.kw, bucket(m.hb, bucket_of(key, m.n)), s, bucket_of(key, m.n), m.n));
+                let i = choose|i: int| 0 <= i < s.len() && #[trigger] s[i] == ko && kkey(w.kw, ko) == key && gopt->Some_0.1 == prev_of(s, i);
+                lemma_chain_member(w.kw, bucket(m.hb, bucket_of(key, m.n)), s, bucket_of(key, m.n), m.n, i);
+                lemma_lookup_found(m, w, key, ko);
+            }
+        }
+    }
+}
+@end
+
+@fn src/filedb/inner/dbxxx.rs | impl<KT: DbMapKeyType> DbXxxObjectSafe<KT> for FileDbXxxInner<KT> | includes_key_kt
+@serves C01 C15
+@requires
+old(self).inv()
+@ensures
+final(self).same_files(old(self)),
+old(self).healthy() ==> r is Ok,
+r is Ok ==> forall|w: MapW| #[trigger] map_ok(old(self).mb(), w) ==> r->Ok_0 == has_key(w, key_kt.bytes())
+@entry
+let ghost m = old(self).mb();
+let ghost key = key_kt.bytes();
+let ghost mut gopt: Option<(nat, nat)> = None;
+@after-call find_in_hash_buckets_kt 1
+proof { gopt = match opt { Some(t) => Some((t.0.val as nat, t.1.val as nat)), None => None }; }
+@exit
+proof {
+    if r__ is Ok {
+        assert forall|w: MapW| #[trigger] map_ok(m, w) implies r__->Ok_0 == has_key(w, key) by {
+            assert(find_post(m, w, key, gopt));
+            lemma_bucket_range(key, m.n);
+            if gopt is Some {
+                let ko = gopt->Some_0.0;
+                let s = w.cs[bucket_of(key, m.n)];
+                assert(chain_ok(w.kw, bucket(m.hb, bucket_of(key, m.n)), s, bucket_of(key, m.n), m.n));
+                let i = choose|i: int| 0 <= i < s.len() && #[trigger] s[i] == ko && kkey(w.kw, ko) == key && gopt->Some_0.1 == prev_of(s, i);
+                lemma_chain_member(w.kw, bucket(m.hb, bucket_of(key, m.n)), s, bucket_of(key, m.n), m.n, i);
+                lemma_lookup_found(m, w, key, ko);
+            }
+        }
+    }
+}
+@end
 @endmod
